@@ -3,7 +3,7 @@
    records until it has seen the replies it waits for; PBlock = Pending without a wake-up).  Proofs: Async/ConnTotal.v
    (totality), Async/ConnReads.v (accounting at every suspension point).  R is the reply specification of
    Parser/StreamSpec.v: the replies owed for a byte string by a parser in a given state. *)
-From FV Require Import Base.Bytes Gen.Generated Parser.ReqModel Parser.ReqTargets Parser.StreamModel Parser.AbsStream Parser.StreamSpec Parser.StreamRefine Parser.StreamInv Async.Conn Async.ConnWrites Async.ConnTotal Async.ConnReads Async.PeerTargets Async.PeerProofs Async.PeerTargets2 Async.PeerProofs2.
+From FV Require Import Base.Bytes Gen.Generated Parser.ReqModel Parser.ReqTargets Parser.StreamModel Parser.AbsStream Parser.StreamSpec Parser.StreamRefine Parser.StreamInv Async.Conn Async.ConnWrites Async.ConnTotal Async.ConnReads Async.PeerTargets Async.PeerProofs Async.PeerTargets2 Async.PeerProofs2 Async.PeerTargets3 Async.PeerProofs3.
 
 (* ==== pinned from the proof files (tools/write_props.py) ==== *)
 
@@ -219,6 +219,22 @@ Theorem C08_peer_never_deadlocks :
   fst (run_loop norm maxc (nb w0 + 4) (new_parser B) scripts 0 w0) = ORet.
 Proof. exact peer_never_deadlocks. Qed.
 
+(* MAIN, the one-outstanding client of C07: one complete request per segment (C01-style preamble with junk,
+   then stream records in which every input stream of the role is terminated; management and unknown-type
+   records anywhere; no stray BeginRequest / AbortRequest), request j+1 released after exactly j EndRequest
+   records and at most the management replies owed so far: for every buffer size, handler scripts and readiness
+   pattern the connection task RETURNS — whether the client waits for an EndRequest or for a management reply *)
+Theorem C08_client_never_deadlocks :
+  forall (norm : bytes -> bytes) (maxc : N) (scripts : list (list N)) (B : N) 
+    (cs : list (N * N * creq)) (w0 : world),
+  B < SIZE_LIMIT - 8 ->
+  scripts_ok true scripts ->
+  segs w0 = enc_client cs ->
+  client_segs 0 0 cs ->
+  wlog w0 = [] ->
+  no_fault (wscript w0) -> fst (run_loop norm maxc (nb w0 + 4) (new_parser B) scripts 0 w0) = ORet.
+Proof. exact client_never_deadlocks. Qed.
+
 (* non-vacuity of C08_peer_read_never_deadlocks: a GetValues query in the first segment, the second segment gated on its
    reply (gm = 1): all hypotheses hold, the read returns the Stdin bytes; with the gate at 2 replies the read does deadlock *)
 Example C08_peer_example : forall fuel dest w', await_input 10 fuel dest ex_peer_r ex_peer_w <> Halt ODeadlock w'.
@@ -230,3 +246,8 @@ Proof. exact ex_peer_no_deadlock. Qed.
 Example C08_connection_example : forall norm maxc,
   fst (run_loop norm maxc (nb (ex2_w 1) + 4) (new_parser 64) ex2_scripts 0 (ex2_w 1)) = ORet.
 Proof. exact ex2_never_deadlocks. Qed.
+
+(* non-vacuity of C08_client_never_deadlocks: two KeepConn requests in two segments, the second released after one EndRequest *)
+Example C08_client_example : forall norm maxc,
+  fst (run_loop norm maxc (nb (ex3_w 1) + 4) (new_parser 64) ex3_scripts 0 (ex3_w 1)) = ORet.
+Proof. exact ex3_never_deadlocks. Qed.
